@@ -854,9 +854,9 @@ type BLit struct {
 	Bind map[ssa.Value]ssa.Value
 }
 
-// Val resolves a value of the literal's frame to the caller's frame: bound
-// parameters are replaced by their arguments, then parameters of
-// single-call-site helpers by theirs.
+// Val resolves a value of the literal's frame to the frame of the call the
+// literal was taken from: bound parameters are replaced by their arguments
+// (callers apply ir.Deep for the virtual inlining view on top).
 func (b BLit) Val(v ssa.Value) ssa.Value {
 	for d := 0; d < 6; d++ {
 		v = ir.Resolve(v)
@@ -866,7 +866,7 @@ func (b BLit) Val(v ssa.Value) ssa.Value {
 		}
 		break
 	}
-	return ir.Deep(v)
+	return ir.Resolve(v)
 }
 
 // expandBound is expandHelperCalls without the single-call-site restriction:
@@ -993,6 +993,27 @@ func (e *Env) helperOfAny(v ssa.Value) (*ssa.Call, int, bool) {
 				}
 			case *ssa.Call:
 				if g := x.Call.StaticCallee(); g != nil && e.P.Funcs[g] && g.Blocks != nil {
+					return c, idx, true
+				}
+				// a library predicate applied to projections of the parameters only
+				// (`return !e.Next.After(tick)`): a pure one-expression predicate
+				pure := len(x.Call.Args) > 0 && !x.Call.IsInvoke()
+				for _, a := range x.Call.Args {
+					ra := ir.Resolve(a)
+					if _, isC := ra.(*ssa.Const); isC {
+						continue
+					}
+					if _, isP := ra.(*ssa.Parameter); isP {
+						continue
+					}
+					if p, okp := e.C.PathOf(ra); okp {
+						if _, isP := ir.Resolve(p.Root).(*ssa.Parameter); isP {
+							continue
+						}
+					}
+					pure = false
+				}
+				if pure {
 					return c, idx, true
 				}
 			case *ssa.Extract:
